@@ -127,3 +127,28 @@ B('c03-values-setter-rebinding', 'C03', CLS, "        self._values = _maybe_cast
 B('c03-bool-writer-axes', 'C03', CLS, "        self.values[mask] = newvalues # the default for a numpy array", "        self.values[mask] = newvalues # the default for a numpy array\n        self._attrs = {}", 'writer clears metadata')
 N('c03-n-rename', 'C03', BASES, "            idx = self._get_indices(indices, tol=tol, indexing=indexing, axis=axis)\n\n            if broadcast:\n                self._setvalues_broadcast(idx, values, cast=cast)\n            else:\n                self._setvalues_ortho(idx, values, cast=cast)", "            positions = self._get_indices(indices, axis=axis, indexing=indexing, tol=tol)\n\n            if not broadcast:\n                self._setvalues_ortho(positions, values, cast=cast)\n            else:\n                self._setvalues_broadcast(positions, values, cast=cast)", 'rename + reorder keywords + invert if')
 N('c03-n-widen-reorder', 'C03', IDX, "    if values.dtype.kind == dtype.kind:\n        pass # same kind\n    elif values.dtype.kind == 'O':\n        pass # or already object", "    if values.dtype.kind == 'O':\n        pass # or already object\n    elif values.dtype.kind == dtype.kind:\n        pass # same kind", 'reordered independent tests')
+
+# ------------------------------------------------------------------------------- C04
+B('c04-F5-rtruediv-missing', 'C04', BASES, "    def __rtruediv__(self, other): return self._rbinary_op(np.true_divide, other)\n", "", 'reintroduce F5')
+B('c04-F1-in1d', ['C04', 'C06'], AXES, "np.isin(other.values, self.values, invert=True)", "np.in1d(other.values, self.values, invert=True)", 'reintroduce F1')
+B('c04-sub-ufunc', 'C04', BASES, "def __sub__(self, other): return self._binary_op(np.subtract, other)", "def __sub__(self, other): return self._binary_op(np.add, other)", '')
+B('c04-rsub-order', 'C04', BASES, "def __rsub__(self, other): return self._rbinary_op(np.subtract, other)", "def __rsub__(self, other): return self._binary_op(np.subtract, other)", '2 - a computes a - 2')
+B('c04-rpow-ufunc', 'C04', BASES, "def __rpow__(self, other): return self._rbinary_op(np.power, other)", "def __rpow__(self, other): return self._rbinary_op(np.multiply, other)", '')
+B('c04-floordiv-true', 'C04', BASES, "def __floordiv__(self, other): return self._binary_op(np.floor_divide, other)", "def __floordiv__(self, other): return self._binary_op(np.true_divide, other)", '')
+B('c04-rbinary-order', 'C04', CLS, "return _operation.operation(func, other, self, broadcast=get_option('op.broadcast')", "return _operation.operation(func, self, other, broadcast=get_option('op.broadcast')", 'reflected order lost in DimArray._rbinary_op')
+B('c04-align-dropped', 'C04', OPER, "    if reindex:\n        o1, o2 = align_axes((o1, o2))", "    if reindex and False:\n        o1, o2 = align_axes((o1, o2))", 'no label alignment')
+B('c04-align-result-unused', 'C04', OPER, "        o1, o2 = align_axes((o1, o2))", "        _o1, _o2 = align_axes((o1, o2))", 'alignment computed but unused')
+B('c04-align-swapped', 'C04', OPER, "        o1, o2 = align_axes((o1, o2))", "        o2, o1 = align_axes((o1, o2))", 'operands swapped after alignment')
+B('c04-align-inner', 'C04', OPER, "        o1, o2 = align_axes((o1, o2))", "        o1, o2 = align_axes((o1, o2), join='inner')", 'intersection instead of union')
+B('c04-aligndims-dropped', 'C04', OPER, "    if broadcast:\n        o1, o2 = align_dims(o1, o2)", "    if broadcast and o1.ndim != o2.ndim:\n        o1, o2 = align_dims(o1, o2)", 'same ndim, different dims -> positional')
+B('c04-func-order', 'C04', OPER, "    res = func(o1.values, o2.values)\n\n    return constructor(res, newaxes)", "    res = func(o2.values, o1.values)\n\n    return constructor(res, newaxes)", 'operand order')
+B('c04-placeholder-positional', 'C04', OPER, "            newaxes.append(o2.axes[ax.name].copy())", "            newaxes.append(o2.axes[i].copy())", 'placeholder replaced by position')
+B('c04-axes-not-copied', ['C04'], OPER, "            newaxes.append(ax.copy())", "            newaxes.append(ax)", 'result shares Axis objects with operand')
+B('c04-scalar-order', 'C04', OPER, "        res = func(np.array(o1), o2.values)\n        return constructor(res, o2.axes)", "        res = func(o2.values, np.array(o1))\n        return constructor(res, o2.axes)", '2 - a computes a - 2 (scalar path)')
+B('c04-join-default-inner', ['C04', 'C06'], ALIGN, "def align(arrays, join='outer', axis=None , sort=False, strict=False):", "def align(arrays, join='inner', axis=None , sort=False, strict=False):", '')
+B('c04-option-default', 'C04', 'dimarray/config.py', "rcParams['op.reindex'] = True", "rcParams['op.reindex'] = False", '')
+B('c04-getdims-dup', 'C04', ALIGN, "            if ax.name not in dims:\n                dims.append(ax.name)\n    return dims", "            dims.append(ax.name)\n    return dims", 'duplicate dimension names')
+B('c04-attrs-leak', ['C04', 'C16'], OPER, "    return constructor(res, newaxes)", "    return constructor(res, newaxes, **o1.attrs)", 'arithmetic result carries metadata')
+N('c04-n-rename', 'C04', OPER, "newaxes", "result_axes", 'rename', all=True)
+N('c04-n-list-arg', 'C04', OPER, "        o1, o2 = align_axes((o1, o2))", "        o1, o2 = align_axes([o1, o2])", 'list instead of tuple')
+N('c04-n-asarray', 'C04', OPER, "        res = func(o1.values, np.array(o2))", "        other = np.asarray(o2)\n        res = func(o1.values, other)", 'asarray + temp')
